@@ -641,3 +641,34 @@ Qed.
 Lemma proto_roundtrip_lemma p i :
   print_proto (report_new p i) = p /\ snd (report_new (print_proto (report_new p i)) i) = snd (report_new p i).
 Proof. split; reflexivity. Qed.
+
+(* ------------------------------------------------------------------ chunkedGrab: no source is left out *)
+Lemma chunks_fuel_concat {A} n : (0 < n)%nat -> forall fuel (l : list A),
+  (List.length l <= fuel)%nat -> List.concat (chunks_fuel fuel n l) = l.
+Proof.
+  intros N. induction fuel as [|f IH]; intros l L.
+  - destruct l; [reflexivity | simpl in L; lia].
+  - destruct l as [|a r]; [reflexivity|].
+    cbn [chunks_fuel List.concat]. rewrite IH.
+    + apply firstn_skipn.
+    + rewrite skipn_length. cbn [List.length] in *. lia.
+Qed.
+
+Lemma chunks_concat_lemma {A} n (l : list A) : (0 < n)%nat -> List.concat (chunks n l) = l.
+Proof. intros N. unfold chunks. apply chunks_fuel_concat; [exact N | lia]. Qed.
+
+Lemma chunks_small {A} n (l : list A) : l <> [] -> (List.length l <= n)%nat -> chunks n l = [l].
+Proof.
+  intros NE L. unfold chunks. destruct l as [|a r]; [contradiction|].
+  cbn [chunks_fuel List.length]. rewrite firstn_all2 by exact L. rewrite skipn_all2 by exact L.
+  destruct (List.length r); reflexivity.
+Qed.
+
+(* up to 128 profiles on one side chunkedGrab is combineProfiles *)
+Lemma chunked_grab_small_lemma keep uts ps :
+  (List.length ps <= chunk_size)%nat -> chunked_grab keep uts ps = combine_profiles keep uts ps.
+Proof.
+  intros L. unfold chunked_grab. destruct ps as [|a r] eqn:E; [reflexivity|]. rewrite <- E in *.
+  rewrite chunks_small; [| subst; discriminate | exact L].
+  destruct (combine_profiles keep uts ps); reflexivity.
+Qed.
